@@ -236,9 +236,9 @@ func pairsShow(chunk []kvql.KVPair) string {
 
 var (
 	evalKeys   = []string{"", "K", "a", "ab", "b", "k1", "k2", "k3"}
-	evalInts   = []string{"1", "2", "10", "-3", "0", "7", "+5", "100"}
+	evalInts   = []string{"1", "2", "10", "-3", "0", "7", "+5", "100", "9007199254740993", "-1234567890123456789", "1234567890"}
 	evalFloats = []string{"1.5", "0.25", "2.0", "-0.5", "1e3", "10", "3.75"}
-	evalTexts  = []string{"abc", "a,b,c", "x-y", "Hello World", "a", "", "1,2,3", "1.5,2", "k1", "Abc,DEF", "1,x", "aXbXc", "3,4"}
+	evalTexts  = []string{"abc", "a,b,c", "x-y", "Hello World", "a", "", "1,2,3", "1.5,2", "k1", "Abc,DEF", "1,x", "aXbXc", "3,4", "1,2,3,4,5", "4,3,2,1", "the quick brown fox, the lazy dog"}
 	evalJsons  = []string{
 		`{"a":1,"b":"x","s":"str","l":[1,"s",2.5,true],"o":{"b":"deep","l":[10,20]},"n":null,"t":true}`,
 		`{"a":"A","b":2.5,"l":[],"o":{"b":7}}`,
@@ -403,6 +403,7 @@ func evalCase(e *Env, col *Collector, d *Driver, idx uint64) error {
 	o := defaultOpts()
 	o.UpperCase = r.Chance(1, 8)
 	g := NewXGen(r, o)
+	g.Wide = true
 	if idx%3 == 0 {
 		g.Wild = 12
 	}
@@ -735,12 +736,64 @@ var libJsonTemplates = []string{
 	"is_float(json(value)['a'])", "float(json(value)['a'])", "json(json(value)['s'])",
 }
 
+// libWideTemplates: byte-exact functions over texts with multi-byte UTF-8 and of up to ~100 bytes.
+// No upper/lower, no empty separator, no regular expression: the model's ASCII-only domains (Lib.lean).
+var libWideTemplates = []string{
+	"strlen(value)", "substr(value, 0, 3)", "substr(value, 2, 5)", "substr(value, 4, 40)", "substr(value, 1, 2)", "substr(value, strlen(key), strlen(value))",
+	"split(value, ',')", "split(value, '::')", "split(value, 'é')", "split(value, key)", "join('::', value, key)", "join('键', key, value, value)", "join(key, value, value)",
+	"value + key", "len(split(value, ','))", "split(value, ',')[1]", "split(value, '::')[0]", "value < key", "value >= key", "value ^= key", "value in split(key, ',')",
+	"value between key and 'é'", "list(value, key)", "strlen(value + key)", "substr(value + value, 3, 30)", "value = 'café'", "value ^= 'caf'", "key in ('café', '键', value)",
+}
+
+// libVecTemplates: the stored key and value are vectors of one common length n (4–9 or 33–40)
+var libVecTemplates = []string{
+	"l2_distance(split(value, ','), split(key, ','))", "cosine_distance(split(value, ','), split(key, ','))",
+	"l2_distance(split(key, ','), split(value, ','))", "len(split(value, ','))", "split(value, ',')[0]", "split(value, ',')[3]", "split(value, ',')[32]", "split(value, ',')[4]",
+	"join(',', split(value, ',')[0], split(value, ',')[3])", "l2_distance(split(value, ','), split(value, ','))",
+}
+
+func randWideText(r *Rand) string {
+	pieces := []string{"é", "键", "😅", "a", "B", " ", ",", "::", "x", "0", "caf", "ï", "z"}
+	n := r.Intn(9)
+	if r.Chance(1, 8) {
+		n = 30 + r.Intn(20)
+	}
+	var b strings.Builder
+	for i := 0; i < n; i++ {
+		b.WriteString(pick(r, pieces))
+	}
+	return b.String()
+}
+
 func evalLibCase(e *Env, col *Collector, d *Driver, idx uint64) error {
 	r := NewRand(e.Seed, "EVALLIB", idx)
 	var tmpl string
 	var mk func() string
 	family := r.Intn(3)
+	if idx%5 == 4 {
+		family = 3 + r.Intn(2)
+	}
 	switch family {
+	case 3:
+		tmpl = pick(r, libWideTemplates)
+		mk = func() string { return randWideText(r) }
+	case 4:
+		tmpl = pick(r, libVecTemplates)
+		n := 4 + r.Intn(6)
+		if r.Chance(1, 4) {
+			n = 33 + r.Intn(8)
+		}
+		mk = func() string {
+			p := make([]string, n)
+			for i := range p {
+				if r.Chance(1, 3) {
+					p[i] = randDecimal(r, true)
+				} else {
+					p[i] = pick(r, c10VecNums)
+				}
+			}
+			return strings.Join(p, ",")
+		}
 	case 0:
 		tmpl = pick(r, libTemplates)
 		mk = func() string { return randDecimal(r, false) }
@@ -767,11 +820,14 @@ func evalLibCase(e *Env, col *Collector, d *Driver, idx uint64) error {
 	chunk := make([]kvql.KVPair, n)
 	for i := range chunk {
 		k := fmt.Sprintf("k%d", i)
-		if family != 2 && r.Chance(2, 3) {
+		if family == 4 || (family != 2 && r.Chance(2, 3)) {
 			k = mk()
-			if family == 1 && r.Chance(1, 2) {
+			if (family == 1 || family == 3) && r.Chance(1, 2) {
 				k = pick(r, []string{",", "a", "-", "", "ab", "."})
 			}
+		}
+		if family == 3 && k == "" {
+			k = "," // split(value, '') cuts after each UTF-8 sequence in Go and after each byte in the model: ASCII-only domain
 		}
 		chunk[i] = kvql.NewKVP([]byte(k), []byte(mk()))
 	}
